@@ -231,7 +231,9 @@ ImportsResolveToExports(L) ==
         /\ \E x \in L.chunks[i.chunk].exports : x.alias = i.alias
         /\ i.chunk \in StaticImports(L, c)
   /\ \A c \in ChunkIds(L) : \A x, y \in L.chunks[c].exports : x.alias = y.alias => x = y
-  /\ \A c \in ChunkIds(L) : \A i \in L.chunks[c].imports : i.chunk \in ChunkIds(L) /\ i.chunk # c
+  \* (a module may import() the entry point of its own chunk: a dynamic self-import is fine)
+  /\ \A c \in ChunkIds(L) : \A i \in L.chunks[c].imports :
+        i.chunk \in ChunkIds(L) /\ (i.kind = "static" => i.chunk # c)
   \* a dynamic import() is rewritten to the entry chunk of its target
   /\ \A c \in ChunkIds(L) : \A d \in DynamicImports(L, c) : L.chunks[d].isEntry
 
